@@ -29,7 +29,6 @@ point (mc.sched.Chooser): choice 0 is the normal answer, choice k applies
   ('rerr_ack', E)     the read that should return the ACK raises IOError(E)
   ('rerr_rsp', E)     the read that should return the response raises
   ('noack',)          response without preceding ACK
-  ('nack',)           ACK followed by a NACK frame
   ('trunc', k)        response frame cut to its first k bytes (1 <= k < len)
   ('wrongcode',)      valid frame with another response code
   ('wrongtfi',)       valid frame with another frame identifier
@@ -178,6 +177,7 @@ class Plan(object):
 
 
 FULL, REDUCED = 'full', 'reduced'
+REDUCED_STATUS = (0x01, 0x02, 0x0A, 0x13, 0x29, 0x31, 0x41, 0x7F, 0xFF)
 
 
 class ChipBase(object):
@@ -221,17 +221,17 @@ def _host_faults(alphabet, ack=True):
         for e in ERRNOS:
             out.append(('rerr_rsp', e))
     else:
-        out += [('werr', 'EIO'), ('rerr_rsp', 'ETIMEDOUT'),
-                ('rerr_rsp', 'ENODEV')]
+        out += [('werr', e) for e in ERRNOS]
+        out += [('rerr_rsp', e) for e in ERRNOS]
         if ack:
-            out.append(('rerr_ack', 'ETIMEDOUT'))
+            out += [('rerr_ack', 'ETIMEDOUT'), ('rerr_ack', 'EIO')]
     return out
 
 
 def _trunc_points(n, alphabet):
     if alphabet == FULL:
         return list(range(1, n))
-    return sorted(set(k for k in (3, 5, 6, n - 1) if 1 <= k < n))
+    return sorted(set(k for k in (1, 3, 5, 6, n - 1) if 1 <= k < n))
 
 
 # ----------------------------------------------------------------------------
@@ -564,11 +564,11 @@ class PN53xChip(ChipBase):
             if a == FULL:
                 alts += [('status', s) for s in range(1, 256)]
             else:
-                alts += [('status', s) for s in (0x01, 0x02, 0x0A, 0x29)]
+                alts += [('status', s) for s in REDUCED_STATUS]
             alts.append(('nostatus',))
         alts.append(('errframe',))
         alts += _host_faults(a)
-        alts += [('noack',), ('nack',), ('wrongcode',)]
+        alts += [('noack',), ('wrongcode',)]
         n = len(hf.pn53x_build(b'\xD5' + bytes([code + 1]) + rsp))
         alts += [('trunc', k) for k in _trunc_points(n, a)]
         if a == FULL:
@@ -577,7 +577,9 @@ class PN53xChip(ChipBase):
             if rsp:
                 alts.append(('garble', 'payload'))
         else:
-            alts.append(('garble', 'dcs'))
+            alts += [('wrongtfi',), ('garble', 'dcs')]
+            if rsp:
+                alts.append(('garble', 'payload'))
         return alts
 
     def encode(self, code, rsp, dev):
@@ -678,7 +680,7 @@ class ACR122Chip(ChipBase):
             if a == FULL:
                 alts += [('status', s) for s in range(1, 256)]
             else:
-                alts += [('status', s) for s in (0x01, 0x02, 0x0A, 0x29)]
+                alts += [('status', s) for s in REDUCED_STATUS]
             alts.append(('nostatus',))
         alts += _host_faults(a, ack=False)
         alts += [('wrongcode',), ('sw', 0x6300)]
@@ -737,7 +739,7 @@ COMM_BITS = [1 << i for i in range(32)]
 
 def comm_status_values(alphabet):
     if alphabet != FULL:
-        return [0x80, 0x400, 0x04]
+        return [0x80, 0x400, 0x04, 0x480, 0x84, 0xFFFFFFFF]
     vals = list(COMM_BITS)
     for i in range(32):
         for j in range(i + 1, 32):
@@ -869,7 +871,7 @@ class RCS380Chip(ChipBase):
             if a == FULL:
                 alts += [('status', s) for s in range(1, 256)]
             else:
-                alts += [('status', s) for s in (0x01, 0x03, 0x07)]
+                alts += [('status', s) for s in (0x01, 0x03, 0x07, 0xFF)]
             alts.append(('nostatus',))
         if code in (0x04, 0x48):
             alts += [('comm', v) for v in comm_status_values(a)]
@@ -884,7 +886,7 @@ class RCS380Chip(ChipBase):
                      ('garble', 'dcs'), ('garble', 'postamble'),
                      ('garble', 'payload')]
         else:
-            alts.append(('garble', 'payload'))
+            alts += [('wrongtfi',), ('garble', 'dcs'), ('garble', 'payload')]
         return alts
 
     def encode(self, code, rsp, dev):
